@@ -2,10 +2,76 @@ package sym
 
 import (
 	"golang.org/x/tools/go/ssa"
+
+	"verif/engine/smt"
 )
 
+// Abstract model of the parts of package time used by nasConvert/Time.go: a time value is a record of its
+// calendar fields and zone offset. time.Date is the constructor for in-range fields (normalisation of
+// out-of-range fields is not modelled: such a call makes the path inconclusive).
+
+func (ex *Exec) timeField(o Opaque, k string) *T { return o.Data[k].(*T) }
+
 func timeIntrinsic(ex *Exec, fn *ssa.Function, args []Value, site string) Value {
+	C := ex.C
+	switch fn.String() {
+	case "time.FixedZone":
+		ex.opaqueID++
+		return Opaque{Kind: "loc", ID: ex.opaqueID, Data: map[string]Value{"off": args[1].(*T)}}
+	case "time.Date":
+		y, mo, d := args[0].(*T), args[1].(*T), args[2].(*T)
+		h, mi, s := args[3].(*T), args[4].(*T), args[5].(*T)
+		off := ex.k64(0)
+		if l, ok := args[7].(Opaque); ok && l.Kind == "loc" {
+			off = l.Data["off"].(*T)
+		}
+		k := func(v int64) *T { return ex.k64(v) }
+		rng := func(x *T, lo, hi int64) *T { return C.BAnd(C.Sle(k(lo), x), C.Sle(x, k(hi))) }
+		inRange := C.BAnd(rng(mo, 1, 12), C.BAnd(rng(d, 1, 28), C.BAnd(rng(h, 0, 23), C.BAnd(rng(mi, 0, 59), C.BAnd(rng(s, 0, 59), rng(args[6].(*T), 0, 999999999))))))
+		if !(inRange.IsConst() && inRange.Val != 0) {
+			if ex.inNewTerritory() {
+				if r := ex.sat(C.BNot(inRange)); r != smt.Unsat {
+					ex.stats.Inconclusive++
+					ex.report(Report{Kind: "inconclusive", Label: "time.Date with fields that may be out of range (normalisation / days 29-31 not modelled)", Site: site, Status: "inconclusive"})
+				}
+			}
+			ex.assume(inRange)
+		}
+		ex.opaqueID++
+		return Opaque{Kind: "time", ID: ex.opaqueID, Data: map[string]Value{"Y": y, "M": mo, "D": d, "h": h, "m": mi, "s": s, "off": off}}
+	}
+	name := fn.Name()
+	if len(args) > 0 {
+		if t, ok := args[0].(Opaque); ok && t.Kind == "time" {
+			switch name {
+			case "Year":
+				return ex.timeField(t, "Y")
+			case "Month":
+				return ex.timeField(t, "M")
+			case "Day":
+				return ex.timeField(t, "D")
+			case "Hour":
+				return ex.timeField(t, "h")
+			case "Minute":
+				return ex.timeField(t, "m")
+			case "Second":
+				return ex.timeField(t, "s")
+			case "Nanosecond":
+				return ex.k64(0)
+			case "Zone":
+				return Tuple{ex.strConst("zone"), ex.timeField(t, "off")}
+			case "IsDST":
+				return C.False // fixed-offset zones only
+			}
+		}
+	}
 	panic(unsupported("time function " + fn.String()))
 }
 
-func (ex *Exec) timeEq(a, b Opaque) *T { return ex.C.Bool(a.ID == b.ID) }
+func (ex *Exec) timeEq(a, b Opaque) *T {
+	r := ex.C.True
+	for _, k := range []string{"Y", "M", "D", "h", "m", "s", "off"} {
+		r = ex.C.BAnd(r, ex.C.Eq(a.Data[k].(*T), b.Data[k].(*T)))
+	}
+	return r
+}
